@@ -649,6 +649,15 @@ pub fn gen_dp_world(r: &mut Rng, o: &DpWorldOptions) -> DpWorld {
     let mut events = TableDef { name: "events".into(), cols: events_cols, size: (0, 10000), rows: vec![] };
     events.rows = gen_rows(r, &cat, &events.cols.clone(), o.n_events);
     cat.tables.push(events);
+    // one world in three declares tight sizes (just enough room for the neighbouring instances the monitors
+    // build: one more user, a few more orders), the others wide ones
+    if r.chance(1, 3) {
+        for t in cat.tables.iter_mut() {
+            if ["users", "orders", "items"].contains(&t.name.as_str()) {
+                t.size = (0, t.rows.len() as i64 + if t.name == "users" { 1 } else { 6 });
+            }
+        }
+    }
     // visits: 0..4 rows per user id (and sometimes for an id that has no row in users)
     let mut visits = TableDef { name: "visits".into(), cols: visits_cols, size: (0, 100000), rows: vec![] };
     {
